@@ -129,9 +129,12 @@ class Opt:
     def __init__(self, a: int, b: Optional[int] = None,
                  c: Union[int, str] = 'red', d: float = 1.5,
                  e: bool = False, s: str = 'dflt',
-                 l: Optional[List[int]] = None) -> None:       # noqa: E741
+                 l: Optional[List[int]] = None,                # noqa: E741
+                 t: Union[int, str, None] = None,
+                 u: Union[int, str, bool] = 7) -> None:
         self.a, self.b, self.c, self.d, self.e, self.s = a, b, c, d, e, s
         self.l = [] if l is None else l
+        self.t, self.u = t, u
 
     _yatiml_defaults = {'l': []}  # type: Dict[str, Any]
 
@@ -381,6 +384,12 @@ MODELS = [
         ('s', [lambda: Opt(1, s=''), lambda: Opt(1, s='1.5'),
                lambda: Opt(1, s='null')]),
         ('l', [lambda: Opt(1, l=[1]), lambda: Opt(1, l=[])]),
+        # strings that spell a default which is not a string
+        ('t', [lambda: Opt(1, t='None'), lambda: Opt(1, t='null'),
+               lambda: Opt(1, t=''), lambda: Opt(1, t=0)]),
+        ('u', [lambda: Opt(1, u='7'), lambda: Opt(1, u=7),
+               lambda: Opt(1, u=True), lambda: Opt(1, u='True'),
+               lambda: Opt(1, u=1)]),
         ('all', [lambda: Opt(1, 5, 7, 2.5, True, 'x', [1]),
                  lambda: Opt(1)]),
     ]),
@@ -511,6 +520,8 @@ COMBINE = {
         ('e', [{'e': True}, {'e': False}]),
         ('s', [{'s': ''}, {'s': '1.5'}, {'s': 'null'}, {'s': 'dflt'}]),
         ('l', [{'l': [1]}, {'l': []}]),
+        ('t', [{'t': 'None'}, {'t': 'null'}, {'t': 0}]),
+        ('u', [{'u': '7'}, {'u': True}, {'u': 1}]),
     ]),
 }
 COMBINE_MODELS = [MODEL_IDX[n] for n in COMBINE]
